@@ -503,7 +503,9 @@ func (ch *channel) handlePacket(packet []byte) error {
 		default:
 		}
 	default:
-		ch.msg <- msg
+		// Not a channel message. Queueing it on ch.msg would let a peer
+		// fill that channel and stall the mux read loop for good.
+		return fmt.Errorf("ssh: unexpected message %T for channel %d", msg, ch.localId)
 	}
 	return nil
 }
